@@ -374,6 +374,25 @@ func genWire(tier string) []proto.Item {
 			items = append(items, it)
 		}
 	}
+	// the destination's reply is accepted early, the wire then stays quiet for more than a poll interval, and a slower
+	// router's reply (or the destination's reply to a LOWER TTL) arrives well before the deadline: it is still reflected
+	for _, v := range proto.Variants {
+		vi := proto.Info(v)
+		if !vi.Parallel {
+			continue
+		}
+		for _, late := range []string{"router", "destination-for-lower-ttl"} {
+			s := proto.Scn{Variant: v, First: 1, Last: 5, Dest: 3, IPIDBase: 700, EchoBase: 71, TimeoutMs: 500, DelayMs: 10, Bound: 1}
+			want := "3"
+			if late == "router" {
+				s.Hops = map[int]proto.HopSpec{1: {DelayUs: 280000}}
+			} else {
+				s.Hops = map[int]proto.HopSpec{2: {AtTarget: true, DelayUs: 280000}}
+				want = "2"
+			}
+			items = append(items, proto.Item{Scn: s, Class: fmt.Sprintf("wire/%s/r1-5/quiet-then-late-%s", v, late), Note: map[string]string{"want_len": want}})
+		}
+	}
 	// a segment of the run's own connection that answers no probe - the target retransmits its handshake SYN-ACK because
 	// the final handshake acknowledgement was slow - lands at each position of the delivery sequence: same hops as without
 	for _, v := range []string{"sack", "sackstrict"} {
